@@ -403,3 +403,93 @@ fn find_store_consistency() {
     }
     println!("NO-WITNESS find_store_consistency");
 }
+
+/// clauses SegmentationIter::next  (C07): segments partition the text and cut exactly at the begins and ends of known selections
+#[test]
+fn find_segmentation() {
+    let text = "abcdefghij";
+    let n = text.chars().count();
+    // every set of up to 3 selections over a 10-character text taken from a fixed pool
+    let pool: Vec<(usize, usize)> = vec![(0, 3), (2, 5), (3, 3), (5, 10), (4, 6), (9, 10), (0, 10), (7, 7)];
+    for interval in [0usize, 2, 3] { for mask in 0u32..(1 << pool.len()) {
+        if mask.count_ones() > 3 { continue; }
+        let mut store = AnnotationStore::new(Config::default().with_milestone_interval(interval))
+            .with_resource(TextResourceBuilder::new().with_id("r").with_text(text)).unwrap()
+            .with_dataset(AnnotationDataSetBuilder::new().with_id("d")).unwrap();
+        let mut cuts = std::collections::BTreeSet::new();
+        cuts.insert(0); cuts.insert(n);
+        for (i, (b, e)) in pool.iter().enumerate() { if mask & (1 << i) != 0 {
+            store.annotate(AnnotationBuilder::new().with_target(SelectorBuilder::textselector("r", Offset::simple(*b, *e))).with_data("d", "k", "v")).unwrap();
+            cuts.insert(*b); cuts.insert(*e);
+        }}
+        let cuts: Vec<usize> = cuts.into_iter().collect();
+        let want: Vec<(usize, usize)> = cuts.windows(2).map(|w| (w[0], w[1])).collect();
+        let got: Vec<(usize, usize)> = store.resource("r").unwrap().segmentation().map(|s| (s.begin(), s.end())).collect();
+        if got != want {
+            println!("WITNESS {{\"clause\":\"SegmentationIter::next\",\"milestone_interval\":{},\"selections_mask\":{},\"got\":\"{:?}\",\"want\":\"{:?}\"}}", interval, mask, got, want);
+            return;
+        }
+    }}
+    println!("NO-WITNESS find_segmentation");
+}
+
+/// clauses TextResource::{utf8byte, utf8byte_to_charpos} and the ResultTextSelection variants  (C12): conversions agree with
+/// char_indices for every position of texts mixing 1-4 byte codepoints, with milestone intervals 1, 2, 3 and none
+#[test]
+fn find_utf8() {
+    let texts = ["", "a", "aé", "é€𝄞a", "ab€cd𝄞𝄞ef", "𝄞", "€€€€€€€€€€€€", "xyzäöü€𝄞xyzäöü€𝄞"];
+    for text in texts { for interval in [0usize, 1, 2, 3, 100] {
+        let store = AnnotationStore::new(Config::default().with_milestone_interval(interval))
+            .with_resource(TextResourceBuilder::new().with_id("r").with_text(text)).unwrap();
+        let res = store.resource("r").unwrap();
+        let bytes: Vec<usize> = text.char_indices().map(|(b, _)| b).chain(std::iter::once(text.len())).collect();
+        for (c, b) in bytes.iter().enumerate() {
+            let got = res.utf8byte(c);
+            if got.as_ref().ok() != Some(b) { println!("WITNESS {{\"clause\":\"utf8byte\",\"text\":{:?},\"milestone_interval\":{},\"charpos\":{},\"got\":\"{:?}\",\"want\":{}}}", text, interval, c, got.ok(), b); return; }
+        }
+        if res.utf8byte(bytes.len()).is_ok() { println!("WITNESS {{\"clause\":\"utf8byte/ok_iff\",\"text\":{:?},\"milestone_interval\":{},\"charpos\":{},\"got\":\"Ok\"}}", text, interval, bytes.len()); return; }
+        for b in 0..=text.len() + 1 {
+            let want = bytes.iter().position(|x| *x == b);
+            let got = res.utf8byte_to_charpos(b).ok();
+            if got != want { println!("WITNESS {{\"clause\":\"utf8byte_to_charpos\",\"text\":{:?},\"milestone_interval\":{},\"bytepos\":{},\"got\":\"{:?}\",\"want\":\"{:?}\"}}", text, interval, b, got, want); return; }
+        }
+        // relative conversions inside every sub-selection
+        let n = bytes.len() - 1;
+        for sb in 0..=n { for se in sb..=n {
+            let ts = match res.textselection(&Offset::simple(sb, se)) { Ok(t) => t, Err(_) => continue };
+            for c in 0..=(se - sb) {
+                let want = bytes[sb + c] - bytes[sb];
+                let got = ts.utf8byte(c).ok();
+                if got != Some(want) { println!("WITNESS {{\"clause\":\"ResultTextSelection::utf8byte\",\"text\":{:?},\"selection\":\"{}..{}\",\"charpos\":{},\"got\":\"{:?}\",\"want\":{}}}", text, sb, se, c, got, want); return; }
+                let back = ts.utf8byte_to_charpos(want).ok();
+                if back != Some(c) { println!("WITNESS {{\"clause\":\"ResultTextSelection::utf8byte_to_charpos\",\"text\":{:?},\"selection\":\"{}..{}\",\"bytepos\":{},\"got\":\"{:?}\",\"want\":{}}}", text, sb, se, want, back, c); return; }
+            }
+        }}
+    }}
+    println!("NO-WITNESS find_utf8");
+}
+
+/// clauses TextSelectionIter::{next, next_back}  (C06): a range walk yields exactly the known selections that begin (forward) /
+/// end (backward) inside the range, each once, in order
+#[test]
+fn find_index_walk() {
+    let mut store = store_with_text().with_dataset(AnnotationDataSetBuilder::new().with_id("d")).unwrap();
+    let pool: Vec<(usize, usize)> = vec![(0, 2), (0, 9), (2, 4), (4, 6), (4, 4), (3, 7), (8, 9), (9, 9), (0, 0), (6, 8), (2, 9)];
+    for (b, e) in &pool { store.annotate(AnnotationBuilder::new().with_target(SelectorBuilder::textselector("r", Offset::simple(*b, *e))).with_data("d", "k", "v")).unwrap(); }
+    let resource: &TextResource = store.get("r").unwrap();
+    let all: Vec<TextSelection> = pool.iter().map(|(b, e)| ts(*b, *e)).collect();
+    let n = TEXT.chars().count();
+    for b in 0..=n + 1 { for e in b..=n + 2 {
+        let mut want: Vec<(usize, usize)> = all.iter().filter(|t| b <= t.begin() && t.begin() < e).map(|t| (t.begin(), t.end())).collect();
+        want.sort(); want.dedup();
+        let got: Vec<(usize, usize)> = resource.range(b, e).map(|t| (t.begin(), t.end())).collect();
+        let mut gs = got.clone(); gs.sort();
+        if gs != want || got.windows(2).any(|w| w[0].0 > w[1].0) { println!("WITNESS {{\"clause\":\"TextSelectionIter::next\",\"range\":\"{}..{}\",\"got\":\"{:?}\",\"want\":\"{:?}\"}}", b, e, got, want); return; }
+        let mut want: Vec<(usize, usize)> = all.iter().filter(|t| b <= t.end() && t.end() < e).map(|t| (t.begin(), t.end())).collect();
+        want.sort(); want.dedup();
+        let got: Vec<(usize, usize)> = resource.range(b, e).rev().map(|t| (t.begin(), t.end())).collect();
+        let mut gs = got.clone(); gs.sort();
+        if gs != want || got.windows(2).any(|w| w[0].1 < w[1].1) { println!("WITNESS {{\"clause\":\"TextSelectionIter::next_back\",\"range\":\"{}..{}\",\"got\":\"{:?}\",\"want\":\"{:?}\"}}", b, e, got, want); return; }
+    }}
+    println!("NO-WITNESS find_index_walk");
+}
